@@ -1202,6 +1202,12 @@ func (c *Ctx) optionWiring(e entry, ri *stageCall) {
 		}
 	}
 	isUseDSSE := func(v ssa.Value, at ssa.Instruction) bool {
+		// `_, useDSSE := layoutEnv.(*Envelope)`
+		if ex, ok := resolve(v, at).(*ssa.Extract); ok && ex.Index == 1 {
+			if ta, ok := ex.Tuple.(*ssa.TypeAssert); ok && ta.CommaOk && ta.X == ssa.Value(e.env) && typeStr(ta.AssertedType) == "*in_toto.Envelope" {
+				return true
+			}
+		}
 		ph, ok := resolve(v, at).(*ssa.Phi)
 		if !ok {
 			return false
